@@ -409,8 +409,19 @@ class ObjWorld(Run):
             op["c"] = [rng.choice([1.0, -0.5, 2.0, 0.0]), rng.choice([0.0, 0.0, 1.5])]
         elif kind == "list":
             L = rng.randrange(1, 6)
-            if rng.random() < 0.4:
+            u = rng.random()
+            if u < 0.4:
                 op["items"] = sut.strs(rm.rand_commuting_independent(rng, n, rng.randrange(1, n + 1)))
+            elif u < 0.55:
+                # commuting but DEPENDENT (a product of two entries, or a duplicate, appended): the
+                # state constructors reject it - and must leave it alone while doing so
+                gens = list(rm.rand_commuting_independent(rng, n, rng.randrange(1, n + 1)))
+                if len(gens) >= 2 and rng.random() < 0.6:
+                    i, j = rng.sample(range(len(gens)), 2)
+                    gens.append(rm.pmul(gens[i], gens[j]))
+                else:
+                    gens.append(gens[rng.randrange(len(gens))])
+                op["items"] = sut.strs(gens)
             else:
                 op["items"] = [self._lit_pauli(rng, n) for _ in range(L)]
         elif kind == "poly":
